@@ -1,15 +1,23 @@
 """Re-run one C03 case on the implementation and print what the property oracle says.
-usage: python -m harness.c03_replay '{"backend": "peewee", "events": [[ts_us, dur_us, label], ...],
+usage: python -m harness.c03_replay '{"backend": "memory", "nstores": 1, "script": [step, ...]}'
+         step = ["w", store, op] | ["q", store, bucket, query]   (harness/c03_hist.py; the LAST step must be a query)
+         op   = ["create", b] | ["delete_bucket", b] | ["insert", b, ev] | ["insert_many", b, [ev ...]]
+              | ["replace", b, ["lab", x], ev] | ["replace_last", b, ev] | ["delete", b, ["lab", x]]
+         ev   = [null | ["lab", x], ts_us, dur_us, label]        (labels: one per written event)
+       python -m harness.c03_replay '{"backend": "peewee", "events": [[ts_us, dur_us, label], ...],
                                       "query": ["get", limit, ws|null, we|null, off_min, off_min]
                                              | ["count", ws|null, we|null, off_min, off_min]}'
+         (round-1 form: the events inserted one by one into a fresh bucket, then the query)
 (or the path of a replays/C03/*.json file: its first failing input is replayed)"""
 import json
 import os
+import shutil
 import sys
 import tempfile
 
 from . import common
 from . import c03
+from . import c03_hist as hist
 
 
 def main():
@@ -17,18 +25,37 @@ def main():
     obj = json.load(open(arg)) if os.path.exists(arg) else json.loads(arg)
     if "replay" in obj:
         obj = obj["replay"]
-    be, q = obj["backend"], obj["query"]
+    be = obj["backend"]
     common.setup_impl_env()
-    case = {"events": obj["events"], "stream": "replay",
-            "queries": [q] + ([["get", -1, q[2], q[3], q[4], q[5]]] if q[0] == "get" else
-                              [["get", -1, q[1], q[2], q[3], q[4]]])}
+    if "script" in obj:
+        script = list(obj["script"])
+        if "step" in obj:
+            script = script[:obj["step"] + 1]
+        case = {"stream": "replay", "nstores": obj.get("nstores", 1), "script": script}
+    else:
+        case = hist.simple_script(obj["events"], [obj["query"]], "replay")
+    script = case["script"]
+    _, si, b, q = script[-1]
+    at = len(script) - 1
+    # the unlimited read of the same window on the same contents, for the limit clauses
+    script.append(["q", si, b, ["get", -1] + (q[2:] if q[0] == "get" else q[1:])])
     tmp = tempfile.mkdtemp(prefix="awc03-replay-")
-    run = c03.run_impl_case(case, be, tmp, 0)
-    stored = {w[0]: w for w in run["stored"]}
-    ans, unl = run["answers"]
-    print("stored :", run["stored"])
-    print("query  :", q)
+    try:
+        run = hist.run_impl_script(case, be, tmp, 0)
+    finally:
+        shutil.rmtree(tmp, ignore_errors=True)
+    for step, rec in zip(script[:at], run["recs"][:at]):
+        if step[0] == "w":
+            print("write  : store", step[1], step[2], "->", "skipped (nothing to address)" if rec[1] is None else rec[2])
+    _, ans, snap, _, broken = run["recs"][at]
+    unl = run["recs"][at + 1][1]
+    print("holds  :", snap, "(according to the writes: [id, ts, dur, label])")
+    print("query  : store", si, "bucket", b, q)
     print("answer :", ans)
+    if broken:
+        print("oracle : a write failed:", broken)
+        return 1
+    stored = {w[3]: w for w in snap or []}
     dev = {}
     if q[0] == "get":
         bad = c03.oracle_get(be, stored, q, ans, unl[1] if unl[0] == "ok" else None, dev)
